@@ -186,6 +186,48 @@ class WrappedEncoder(FnSpec):
         ]
 
 
+class RegEncoder(FnSpec):
+    file = "schema/encoder.py"
+    qual = "json_encoder.<locals>.reg_encoder"
+    props = ("C12",)
+
+    def init(self):
+        self.bindings["func"] = "the-encoder-function"
+        self.bindings["ModelMetaclass"] = SClass("ModelMetaclass")
+        self.bindings["issubclass"] = lambda cx, c, b: SBool(z3.Bool("class_is_a_pydantic_model")) if c == "metaclass-of-the-class" and getattr(b, "name", None) == "ModelMetaclass" else (_ for _ in ()).throw(Unsupported("issubclass of something else"))
+        self.bindings["hasattr"] = lambda cx, o, n: SBool(z3.Bool("class_is_a_dataclass")) if n == "__dataclass_fields__" else (_ for _ in ()).throw(Unsupported("hasattr of another name"))
+
+    def setup(self, cx):
+        class Registry(SVal):
+            def py_contains(s, cx2, k):
+                return SBool(z3.Bool("an_encoder_is_already_registered_for_the_class"))
+
+            def py_setitem(s, cx2, k, v):
+                cx2.effect("register", k, v)
+
+        class TheCls(SVal):
+            concrete_key = True
+
+            def py_getattr(s, cx2, n):
+                if n == "__class__":
+                    return "metaclass-of-the-class"
+                raise Unsupported("class attribute " + n)
+
+        self.bindings["_reg_json_encoders"] = Registry()
+        return A(cls=TheCls())
+
+    def raises(self, cx, a):
+        model, dc, dup = z3.Bool("class_is_a_pydantic_model"), z3.Bool("class_is_a_dataclass"), z3.Bool("an_encoder_is_already_registered_for_the_class")
+        return {"TypeError": z3.Or(model, dc), "ValueError": z3.And(z3.Not(model), z3.Not(dc), dup)}
+
+    def on_raise(self, cx, a, exc):
+        return [("nothing-registered", z3.BoolVal(not cx.fx), "")]
+
+    def ensures(self, cx, a, res):
+        r = [e for e in cx.fx if e[0] == "register"]
+        return [("exactly-this-encoder-for-exactly-this-class-once", z3.BoolVal(len(r) == 1 and r[0][1] is a.cls and r[0][2] == "the-encoder-function" and res is a.cls), "an encoder is registered for the decorated class itself and can never be replaced afterwards (a second registration is an error), so a value type always serialises the same way; models and dataclasses are refused (pydantic encodes them itself)")]
+
+
 DEFAULT_FAILS = z3.Bool("default_encoder_raises_TypeError")
 HAS_REG = z3.Bool("encoder_registered_for_type")
 
@@ -1195,7 +1237,7 @@ def build_c12(reg):
     reg.method_bindings[("BaseModelPlus", "super.dict")] = lambda cx, obj, *a, **k: (cx.effect("super-dict", a, k), "pydantic-dict")[1]
     reg.method_bindings[("BaseModelPlus", "super.json")] = lambda cx, obj, *a, **k: (cx.effect("super-json", a, k), "pydantic-json")[1]
     reg.method_bindings[("BaseModelPlusObj", "json")] = lambda cx, obj, *a, **k: (cx.effect("json", a, k), JsonStr(JSON_TEXT))[1]
-    specs = [SchemaMagicInit(), DynEncoderInit(), WrappedEncoder(), ModDefDumpArgs(), ParseRaw(), ToBytes(), DictSpec(), JsonSpec(), OverrideConsts(), AddConstFields()]
+    specs = [SchemaMagicInit(), DynEncoderInit(), WrappedEncoder(), ModDefDumpArgs(), ParseRaw(), ToBytes(), DictSpec(), JsonSpec(), OverrideConsts(), AddConstFields(), RegEncoder()]
     for s in specs:
         reg.add(s)
     return specs
